@@ -1,6 +1,6 @@
 (* PV.C19.Examples — non-vacuity: concrete non-trivial instances of the hypotheses / guards of the theorems. *)
 From Coq Require Import QArith ZArith List Bool PArith Arith Lia Lqa.
-From PV Require Import Base.PyData Base.Expr Base.Interp C19.Model C19.Spec C19.Penalty C19.Summary C19.Categorize C19.Stats C19.Stats2 C19.Refuted.
+From PV Require Import Base.PyData Base.Expr Base.Interp C19.Model C19.Spec C19.Penalty C19.Summary C19.Categorize C19.Stats C19.Stats2 C19.Stats3 C19.Refuted.
 Import ListNotations.
 Local Open Scope nat_scope.
 
@@ -197,4 +197,12 @@ Example quantile_example :
   Qeq_bool (match quantile (975 # 1000) [8; 1; 4; 2]%Q with Some v => v | None => 0 end) (77 # 10) = true /\
   quantile (1 # 2) [] = None /\
   sm_outlier (simeval_row idq [[(1%positive, Some 1%Q)]; [(1%positive, Some 3%Q)]] [(1%positive, Some 10%Q)] 1%positive) = true.
+Proof. repeat split; vm_compute; reflexivity. Qed.
+
+(* cdd delta OFV: individuals 5, 2, 9 with iOFV 1, 2.5, 4; skipping 2 (and an unknown 77) leaves 5; run OFV 1 -> 4 > 3.86 *)
+Example cdd_delta_ofv_example :
+  compute_delta_ofv (Some [(5%positive, 1%Q); (2%positive, (5 # 2)%Q); (9%positive, 4%Q)])
+                    [([2%positive; 77%positive], Some 1%Q); ([5%positive], None)]
+  = [Some (1 + (4 + 0) - 1)%Q; None] /\
+  dofv_influential (Some 4%Q) = true /\ dofv_influential (Some (385 # 100)%Q) = false /\ dofv_influential None = false.
 Proof. repeat split; vm_compute; reflexivity. Qed.
